@@ -145,6 +145,20 @@ def run(check, repo: Repo) -> None:
         elif isinstance(n_, ast.Call) and (call_name(n_) or "").split(".")[-1] in ("remainder", "fmod", "mod") and len(n_.args) == 2 and _is_area(n_.args[1]):
             area = n_.args[1]
         if area is not None:
+            # … unless the flat index was formed from components that were ALREADY wrapped per axis (then the area modulo is redundant, not wrong)
+            lhs_ = n_.left if isinstance(n_, ast.BinOp) else n_.args[0]
+            seen_, todo_, per_axis = set(), [lhs_], False
+            while todo_:
+                e_ = todo_.pop()
+                for x in ast.walk(e_):
+                    if (isinstance(x, ast.BinOp) and isinstance(x.op, ast.Mod) and not _is_area(x.right)) or \
+                            (isinstance(x, ast.Call) and (call_name(x) or "").split(".")[-1] in ("remainder", "fmod", "mod") and len(x.args) == 2 and not _is_area(x.args[1])):
+                        per_axis = True
+                    if isinstance(x, ast.Name) and x.id not in seen_:
+                        seen_.add(x.id)
+                        todo_.extend(d for d in definitions(spi, x.id) if isinstance(d, ast.AST))
+            if per_axis:
+                continue
             check.violated("C02-R3", "_set_patch_indices: indices wrap per axis (row mod rows, column mod columns)",
                            f"`{unparse(n_)[:70]}` reduces a flat index modulo the object AREA `{unparse(area)}`: only the rows wrap — a patch that crosses the left / right edge "
                            f"picks up pixels of the neighbouring row, so edge probes gather the wrong object patches", dmod.line(n_), definite=True)
